@@ -1,29 +1,305 @@
 import ZCV.Lemmas.Datatypes
+import ZCV.Lemmas.Datatypes2Total
+import ZCV.Lemmas.Datatypes2Split
+import ZCV.Lemmas.Datatypes2Octet
+import ZCV.Lemmas.Datatypes2V6
 /-!
 # C09 — every standard datatype is a total function honouring its documented contract
 
 Totality is by construction (`Except ConvErr α`: a value, ValueError, or timedelta's TypeError; no other outcome
 exists in the model).  Each theorem below says: the model of the code — through the patterns, word tuples, bounds and
 suffix tables *generated from the source* — computes exactly the documented contract, for every string.
+
+The second half (from `C09_ipaddrOrHostname_spec` on) covers the remaining stock datatypes: `ipaddr-or-hostname`
+(live pattern with `rx.match` + "consumed everything", then `inet_pton`), `integer` and `float` (grammars of what
+Python's `int`/`float` accept, `DTSpec.IntLit` / `DTSpec.FloatLit`), `string-list` (`DTSpec.Words`), totality of the
+whole stock table and idempotence of the key types.  `timedelta`, `locale` and the four `existing-*` datatypes are
+not modelled by `stockVal` (see `C09_unmodelled`); nothing is claimed about them here.
 -/
 namespace ZCV.Props.C09
 open ZCV
 
+/-- `basic-key` accepts exactly a letter followed by letters, digits, `-`, `.`, `_`, and lower-cases it. -/
 theorem C09_basicKey_spec (s : Str) : DT.basicKey s = DTSpec.basicKey s := DT.basicKey_eq_spec s
+/-- `identifier` accepts exactly the ASCII identifiers and returns them unchanged. -/
 theorem C09_identifier_spec (s : Str) : DT.identifier s = DTSpec.identifier s := DT.identifier_eq_spec s
+/-- `dotted-name` accepts exactly one or more identifiers separated by periods. -/
 theorem C09_dottedName_spec (s : Str) : DT.dottedName s = DTSpec.dottedName s := DT.dottedName_eq_spec s
+/-- `dotted-suffix` accepts exactly a dotted name, possibly prefixed by a period. -/
 theorem C09_dottedSuffix_spec (s : Str) : DT.dottedSuffix s = DTSpec.dottedSuffix s := DT.dottedSuffix_eq_spec s
+/-- `boolean` accepts exactly yes/true/on and no/false/off in any letter case. -/
 theorem C09_boolean_spec (s : Str) : DT.asBoolean s = DTSpec.boolean s := DT.asBoolean_eq_spec s
+/-- `port-number` yields an integer in 0..65535 and rejects everything else. -/
 theorem C09_portNumber_spec (s : Str) : DT.portNumber s = DTSpec.portNumber s := DT.portNumber_eq_spec s
+/-- `byte-size` multiplies an integer by the case-insensitive suffix KB/MB/GB (none: 1). -/
 theorem C09_byteSize_spec (s : Str) : DT.byteSize s = DTSpec.byteSize s := DT.byteSize_eq_spec s
+/-- `time-interval` multiplies an integer by the case-insensitive suffix s/m/h/d (none: 1). -/
 theorem C09_timeInterval_spec (s : Str) : DT.timeInterval s = DTSpec.timeInterval s := DT.timeInterval_eq_spec s
+/-- The `inet-address` family splits host and port with the IPv6 bracket rule, lower-cases the host and supplies
+    the default host `d`. -/
 theorem C09_inetAddress_spec (d s : Str) : DT.inetAddress d s = DTSpec.inetAddress d s := DT.inetAddress_eq_spec d s
+/-- `socket-address` classifies UNIX paths (containing `/`), IPv6 (host containing `:`) and IPv4. -/
 theorem C09_socketAddress_spec (d s : Str) :
     (DT.socketAddress d s).map (fun p => (String.ofList (DT.familyStr p.1), p.2)) = DTSpec.socketFamily d s :=
   DT.socketAddress_eq_spec d s
+/-- `basic-key` is idempotent. -/
 theorem C09_basicKey_idempotent (s r : Str) (h : DT.basicKey s = .ok r) : DT.basicKey r = .ok r :=
   DT.basicKey_idempotent s r h
+/-- `identifier` is idempotent. -/
 theorem C09_identifier_idempotent (s r : Str) (h : DT.identifier s = .ok r) : DT.identifier r = .ok r :=
   DT.identifier_idempotent s r h
+
+/-- equality of conversion outcomes is decidable (used by the closed examples below only) -/
+local instance c09DecEqExcept {ε α : Type} [DecidableEq ε] [DecidableEq α] : DecidableEq (Except ε α) := fun a b =>
+  match a, b with
+  | .ok x, .ok y => if h : x = y then isTrue (by rw [h]) else isFalse (fun e => h (by injection e))
+  | .error x, .error y => if h : x = y then isTrue (by rw [h]) else isFalse (fun e => h (by injection e))
+  | .ok _, .error _ => isFalse (fun e => by cases e)
+  | .error _, .ok _ => isFalse (fun e => by cases e)
+
+/-! ## ipaddr-or-hostname -/
+
+/-- The regular-expression side of `ipaddr-or-hostname`, for ALL strings: the live pattern (used as
+    `m = rx.match(v); m and m.group() == v`, i.e. the FIRST match in backtracking order must consume everything)
+    accepts exactly a dotted quad, or a text over `[0-9A-Fa-f:.]` with a colon after its first character, or a host
+    name `[A-Za-z_][-A-Za-z0-9_.]*[-A-Za-z0-9_]`. -/
+theorem C09_ipaddrOrHostname_pattern (s : Str) :
+    Rx.matchesWhole Gen.ipaddrRx s = (DTSpec.isDottedQuad s || DT.dt2V6Shape s || DTSpec.isHostname s) :=
+  DT.dt2_ipaddr_matches s
+
+/-- `ipaddr-or-hostname` computes exactly its documented contract, for every string: a dotted quad, a host name, or
+    a text over `[0-9A-Fa-f:.]` containing a colon that `inet_pton(AF_INET6, ·)` (as re-implemented in `ZCV.Inet`)
+    accepts once lower-cased — returned lower-cased; anything else is a `ValueError`. -/
+theorem C09_ipaddrOrHostname_spec (s : Str) : DT.ipaddrOrHostname s = DTSpec.ipaddrOrHostname s :=
+  DT.dt2_ipaddrOrHostname_eq_spec s
+
+/-- Soundness, readable form: whatever `ipaddr-or-hostname` accepts has one of the three documented shapes, and
+    the result is the input lower-cased. -/
+theorem C09_ipaddrOrHostname_sound (s r : Str) (h : DT.ipaddrOrHostname s = .ok r) :
+    r = lower s ∧ (DTSpec.isDottedQuad s = true ∨ DTSpec.isHostname s = true ∨
+      (s.all DTSpec.isV6Char = true ∧ s.contains ':' = true ∧ DT.pton6 (lower s) = true)) := by
+  rw [C09_ipaddrOrHostname_spec] at h
+  exact (DT.dt2_spec_ok_iff s r).mp h
+
+/-- Completeness: every dotted quad, every host name and every valid IPv6 address is accepted (and lower-cased).
+    No side condition on the IPv6 branch: what `inet_pton` accepts is over `[0-9A-Fa-f:.]` and contains a colon,
+    `lower` creates no such character from a non-ASCII one, and `inet_pton` ignores the case of hex letters. -/
+theorem C09_ipaddrOrHostname_complete (s : Str)
+    (h : DTSpec.isDottedQuad s = true ∨ DTSpec.isHostname s = true ∨ DT.pton6 s = true) :
+    DT.ipaddrOrHostname s = .ok (lower s) :=
+  (DT.dt2_ipaddrOrHostname_exact' s _).mpr ⟨rfl, h⟩
+
+/-- The property as stated: `ipaddr-or-hostname` accepts EXACTLY dotted-quad IPv4, valid IPv6 addresses and host
+    names, lower-casing them … -/
+theorem C09_ipaddrOrHostname_exact (s r : Str) :
+    DT.ipaddrOrHostname s = .ok r ↔
+      r = lower s ∧ (DTSpec.isDottedQuad s = true ∨ DTSpec.isHostname s = true ∨ DT.pton6 s = true) :=
+  DT.dt2_ipaddrOrHostname_exact' s r
+
+/-- … and raises `ValueError` on every other string. -/
+theorem C09_ipaddrOrHostname_reject (s : Str) :
+    DT.ipaddrOrHostname s = .error .valueError ↔
+      ¬ (DTSpec.isDottedQuad s = true ∨ DTSpec.isHostname s = true ∨ DT.pton6 s = true) :=
+  DT.dt2_ipaddrOrHostname_exact_err' s
+
+/-- Validity as an IPv6 address does not depend on letter case: the text and its lower-casing (the form the code
+    hands to `inet_pton`) get the same verdict. -/
+theorem C09_inet6_case_insensitive (s : Str) : DT.pton6 (lower s) = true ↔ DT.pton6 s = true :=
+  DT.dt2_pton6_lower_iff s
+
+/-- A valid IPv6 address (as `inet_pton` sees it) is a text over `[0-9A-Fa-f:.]` containing a colon. -/
+theorem C09_inet6_alphabet (s : Str) (h : DT.pton6 s = true) : s.all DTSpec.isV6Char = true ∧ ':' ∈ s :=
+  DT.dt2_pton6_shape s h
+
+/-- The fields of an accepted dotted quad: exactly four, each written with one to three `\d` digits (any Unicode
+    decimal-digit script) and denoting a number 0..255. -/
+theorem C09_dottedQuad_fields (s : Str) (h : DTSpec.isDottedQuad s = true) :
+    (DTSpec.splitDots s).length = 4 ∧
+    ∀ o ∈ DTSpec.splitDots s, 1 ≤ o.length ∧ o.length ≤ 3 ∧ ∃ n, pyNat o = some n ∧ n ≤ 255 := by
+  simp only [DTSpec.isDottedQuad, Bool.and_eq_true, beq_iff_eq, List.all_eq_true] at h
+  exact ⟨h.1, fun o ho => DT.dt2_octet_range o (h.2 o ho)⟩
+
+/-- Conversely, over ASCII digits: four fields, each a number 0..255 written with one to three digits, form a
+    dotted quad.  (With non-ASCII digits the pattern `[01]?\d\d|2[0-4]\d|25[0-5]` admits fewer three-digit fields.) -/
+theorem C09_dottedQuad_ascii (s : Str) (hl : (DTSpec.splitDots s).length = 4)
+    (h : ∀ o ∈ DTSpec.splitDots s, o.all isAsciiDigit = true ∧
+      1 ≤ o.length ∧ o.length ≤ 3 ∧ ∃ n, pyNat o = some n ∧ n ≤ 255) :
+    DTSpec.isDottedQuad s = true := by
+  simp only [DTSpec.isDottedQuad, Bool.and_eq_true, beq_iff_eq, List.all_eq_true]
+  exact ⟨hl, fun o ho => DT.dt2_octet_ascii o (h o ho).1 (h o ho).2⟩
+
+/-- `ipaddr-or-hostname` is idempotent: converting a converted value returns it unchanged (what a key type needs). -/
+theorem C09_ipaddrOrHostname_idempotent (s r : Str) (h : DT.ipaddrOrHostname s = .ok r) :
+    DT.ipaddrOrHostname r = .ok r :=
+  DT.dt2_ipaddrOrHostname_idempotent s r h
+
+example : DT.ipaddrOrHostname "192.168.0.255".toList = .ok "192.168.0.255".toList := by
+  rw [C09_ipaddrOrHostname_spec]; decide
+example : DT.ipaddrOrHostname "Host-1.Example".toList = .ok "host-1.example".toList := by
+  rw [C09_ipaddrOrHostname_spec]; decide
+example : DT.ipaddrOrHostname "FE80::1".toList = .ok "fe80::1".toList := by
+  rw [C09_ipaddrOrHostname_spec]; decide
+example : DT.ipaddrOrHostname "::ffff:1.2.3.4".toList = .ok "::ffff:1.2.3.4".toList := by
+  rw [C09_ipaddrOrHostname_spec]; decide
+example : DT.ipaddrOrHostname "1.2.3.256".toList = .error .valueError := by
+  rw [C09_ipaddrOrHostname_spec]; decide
+example : DT.ipaddrOrHostname "1::2::3".toList = .error .valueError := by
+  rw [C09_ipaddrOrHostname_spec]; decide
+example : DT.ipaddrOrHostname "1.2.3.4\n".toList = .error .valueError := by
+  rw [C09_ipaddrOrHostname_spec]; decide
+
+/-! ## integer -/
+
+/-- `integer` accepts exactly the integer literals — optional surrounding whitespace, an optional sign, digits of any
+    Unicode decimal-digit script with single underscores between digits — and returns the decimal value. -/
+theorem C09_integer_spec (s : Str) (n : Int) : DT.integer s = .ok n ↔ DTSpec.IntLit s n := by
+  rw [← DT.dt2_pyInt_iff]
+  unfold DT.integer
+  cases pyInt s with
+  | none => simp
+  | some k => simp
+
+/-- …and rejects everything else with `ValueError`. -/
+theorem C09_integer_reject (s : Str) : DT.integer s = .error .valueError ↔ ¬ ∃ n, DTSpec.IntLit s n := by
+  constructor
+  · rintro h ⟨n, hn⟩
+    rw [(C09_integer_spec s n).mpr hn] at h; cases h
+  · intro h
+    rcases DT.dt2_integer_spec s with ⟨n, hn, _⟩ | ⟨_, he⟩
+    · exact absurd ⟨n, hn⟩ h
+    · exact he
+
+/-- An integer literal denotes one number. -/
+theorem C09_integer_unique (s : Str) (n n' : Int) (h : DTSpec.IntLit s n) (h' : DTSpec.IntLit s n') : n = n' :=
+  DT.dt2_intLit_unique s n n' h h'
+
+/-- `integer` returns a value or raises `ValueError`; nothing else. -/
+theorem C09_integer_total (s : Str) : (∃ n, DT.integer s = .ok n) ∨ DT.integer s = .error .valueError :=
+  DT.dt2_integer_total s
+
+example : DTSpec.IntLit " +1_000\n".toList 1000 := (C09_integer_spec _ _).mp (by decide)
+example : DTSpec.IntLit "-٤٢".toList (-42) := (C09_integer_spec _ _).mp (by decide)
+example : DT.integer "1__0".toList = .error .valueError := by decide
+example : DT.integer "_1".toList = .error .valueError := by decide
+example : DT.integer "- 1".toList = .error .valueError := by decide
+
+/-! ## string-list -/
+
+/-- `string-list` is `str.split()`: its result is THE decomposition of the text into whitespace-separated words —
+    the maximal runs of non-whitespace characters, in order. -/
+theorem C09_stringList_spec (s : Str) (ws : List Str) : DTSpec.Words s ws ↔ DT.stringList s = ws :=
+  DT.dt2_splitWS_iff s ws
+
+/-- No element of a `string-list` is empty or contains whitespace. -/
+theorem C09_stringList_elems (s : Str) : ∀ w ∈ DT.stringList s, w ≠ [] ∧ ∀ c ∈ w, pySpace c = false :=
+  DT.dt2_words_elems s _ ((C09_stringList_spec s _).mpr rfl)
+
+/-- Concatenating the elements gives the text with all whitespace removed. -/
+theorem C09_stringList_concat (s : Str) : (DT.stringList s).flatten = s.filter (fun c => !pySpace c) :=
+  DT.dt2_words_flatten s _ ((C09_stringList_spec s _).mpr rfl)
+
+example : DTSpec.Words "  ab\tc \n".toList ["ab".toList, "c".toList] := (C09_stringList_spec _ _).mpr (by decide)
+example : DT.stringList " \t ".toList = [] := by decide
+
+/-! ## float (acceptance) -/
+
+/-- `float` accepts exactly the float literals of the grammar `DTSpec.FloatLit` — optional surrounding whitespace,
+    an optional sign, then `inf`/`infinity`/`nan` in any letter case or a decimal number (digits with single
+    underscores, optional fraction, optional exponent) — and hands the stripped text to `float`. -/
+theorem C09_float_accepts (s : Str) : DT.floatConv s = .ok (.float (strip s)) ↔ DTSpec.FloatLit s := by
+  rw [← DT.dt2_floatOk_iff]
+  unfold DT.floatConv
+  cases DT.floatOk s <;> simp
+
+/-- …and rejects everything else with `ValueError`. -/
+theorem C09_float_reject (s : Str) : DT.floatConv s = .error .valueError ↔ ¬ DTSpec.FloatLit s := by
+  rw [← DT.dt2_floatOk_iff]
+  unfold DT.floatConv
+  cases DT.floatOk s <;> simp
+
+/-- Every text `integer` accepts, `float` accepts. -/
+theorem C09_float_accepts_integers (s : Str) (n : Int) (h : DT.integer s = .ok n) :
+    DT.floatConv s = .ok (.float (strip s)) :=
+  (C09_float_accepts s).mpr (DT.dt2_intLit_floatLit s n ((C09_integer_spec s n).mp h))
+
+/-- The special words, in any letter case, with an optional sign and surrounding whitespace. -/
+theorem C09_float_accepts_words (pre sg t post : Str) (hpre : DTSpec.AllSpace pre) (hpost : DTSpec.AllSpace post)
+    (hsg : DTSpec.IsSign sg)
+    (ht : asciiLower t = "inf".toList ∨ asciiLower t = "infinity".toList ∨ asciiLower t = "nan".toList) :
+    DT.floatConv (pre ++ sg ++ t ++ post) = .ok (.float (strip (pre ++ sg ++ t ++ post))) :=
+  (C09_float_accepts _).mpr ⟨pre, sg, t, post, rfl, hpre, hpost, hsg, Or.inl ht⟩
+
+/-- The empty string (and any all-whitespace string) is rejected. -/
+theorem C09_float_rejects_blank (s : Str) (h : DTSpec.AllSpace s) : DT.floatConv s = .error .valueError := by
+  have hs : strip s = [] := by
+    have := DT.dt2_strip_mid s [] [] h (fun c hc => by simp at hc) (Or.inl rfl)
+    simpa using this
+  unfold DT.floatConv
+  rw [DT.dt2_floatOk_eq, hs]
+  rfl
+
+example : DT.floatConv [] = .error .valueError := C09_float_rejects_blank [] (fun c hc => by cases hc)
+
+/-- `float` returns a value or raises `ValueError`; nothing else. -/
+theorem C09_float_total (s : Str) : (∃ v, DT.floatConv s = .ok v) ∨ DT.floatConv s = .error .valueError :=
+  DT.dt2_float_total s
+
+example : DTSpec.FloatLit " -1_0.5e+3 ".toList := (DT.dt2_floatOk_iff _).mp (by decide)
+example : DTSpec.FloatLit "+InFiNiTy".toList := (DT.dt2_floatOk_iff _).mp (by decide)
+example : DTSpec.FloatLit ".5".toList := (DT.dt2_floatOk_iff _).mp (by decide)
+example : DTSpec.FloatLit "5.".toList := (DT.dt2_floatOk_iff _).mp (by decide)
+example : ¬ DTSpec.FloatLit "".toList := fun h => absurd ((DT.dt2_floatOk_iff _).mpr h) (by decide)
+example : ¬ DTSpec.FloatLit ".".toList := fun h => absurd ((DT.dt2_floatOk_iff _).mpr h) (by decide)
+example : ¬ DTSpec.FloatLit "1._5".toList := fun h => absurd ((DT.dt2_floatOk_iff _).mpr h) (by decide)
+example : ¬ DTSpec.FloatLit "1e".toList := fun h => absurd ((DT.dt2_floatOk_iff _).mpr h) (by decide)
+example : ¬ DTSpec.FloatLit "+-1".toList := fun h => absurd ((DT.dt2_floatOk_iff _).mpr h) (by decide)
+
+/-! ## the whole stock table -/
+
+/-- The stock datatype names split into the twenty that the value-conversion table of the model (`stockVal`)
+    implements and the six it does not (`locale`, the four `existing-*`, `timedelta`). -/
+theorem C09_unmodelled :
+    Gen.stockNames.filter (fun d => DT.dt2Modelled.contains d) = DT.dt2Modelled ∧
+    Gen.stockNames.filter (fun d => !DT.dt2Modelled.contains d) =
+      ["locale".toList, "existing-directory".toList, "existing-path".toList, "existing-file".toList,
+       "existing-dirpath".toList, "timedelta".toList] ∧
+    ∀ dt ∈ DT.dt2Unmodelled, ∀ s, Cfg.stockVal dt s = .error (.other "unknown-datatype".toList) :=
+  ⟨DT.dt2_stockNames_split.1, DT.dt2_stockNames_split.2, DT.dt2_unmodelled_unknown⟩
+
+/-- Totality: for every stock datatype name other than the six the model does not implement, and every string, the
+    conversion returns a value or raises `ValueError` — never any other exception.  (`TypeError` can only come from
+    `timedelta`, which is not modelled.) -/
+theorem C09_total (dt : Str) (h : dt ∈ Gen.stockNames)
+    (hm : dt ∉ ["locale".toList, "existing-directory".toList, "existing-path".toList, "existing-file".toList,
+       "existing-dirpath".toList, "timedelta".toList]) (s : Str) :
+    (∃ v, Cfg.stockVal dt s = .ok v) ∨ Cfg.stockVal dt s = .error .valueError :=
+  DT.dt2_stockVal_total dt (DT.dt2_modelled_of_stock dt h hm) s
+
+example : "ipaddr-or-hostname".toList ∈ Gen.stockNames ∧ "ipaddr-or-hostname".toList ∉ DT.dt2Unmodelled := by decide
+
+/-- The four key types of the model's key-conversion table (`basic-key`, `identifier`, `ipaddr-or-hostname`,
+    `string`) are idempotent: converting a converted key returns it unchanged. -/
+theorem C09_keytypes_idempotent (kt : Str)
+    (h : kt ∈ ["basic-key".toList, "identifier".toList, "ipaddr-or-hostname".toList, "string".toList])
+    (s r : Str) (hk : Cfg.stockKey kt s = .ok r) : Cfg.stockKey kt r = .ok r :=
+  DT.dt2_stockKey_idempotent kt h s r hk
+
+/-- The same, with the key type given the way schema lemmas state it (`String.ofList t.keytype = "…"`). -/
+theorem C09_keytypes_idempotent' (kt : Str)
+    (h : String.ofList kt = "basic-key" ∨ String.ofList kt = "identifier" ∨
+      String.ofList kt = "ipaddr-or-hostname" ∨ String.ofList kt = "string")
+    (s r : Str) (hk : Cfg.stockKey kt s = .ok r) : Cfg.stockKey kt r = .ok r := by
+  apply C09_keytypes_idempotent kt _ s r hk
+  rcases h with h | h | h | h <;> rw [DT.dt2_ofList_eq kt _ h] <;> simp
+
+/-- …and these are all the key types the table knows. -/
+theorem C09_keytypes_all (kt : Str)
+    (h : kt ∉ ["basic-key".toList, "identifier".toList, "ipaddr-or-hostname".toList, "string".toList]) (s : Str) :
+    Cfg.stockKey kt s = .error (.other "unknown-keytype".toList) :=
+  DT.dt2_stockKey_unknown kt h s
+
+example : Cfg.stockKey "basic-key".toList "Ab-C".toList = .ok "ab-c".toList := by
+  show DT.basicKey _ = _
+  rw [DT.basicKey_eq_spec]; decide
 
 end ZCV.Props.C09
